@@ -168,15 +168,28 @@ func datagram4(in in4, r *rand.Rand) ([]byte, net.IP) {
 			d.Options[uint8(dhcpv4.OptionDHCPMessageType)] = []byte{}
 		}
 	}
-	if r.Intn(2) == 0 {
+	// every fourth datagram carries LONG options (a reply that echoes them is bigger than the 548 bytes every client must
+	// accept), and every third one announces its Maximum DHCP Message Size (option 57): legal, too small to be legal, roomy
+	big := r.Intn(4) == 0
+	if r.Intn(2) == 0 || big {
 		rai := make([]byte, 2+r.Intn(6))
+		if big {
+			rai = make([]byte, 180+r.Intn(76))
+		}
 		r.Read(rai)
 		d.Options[uint8(dhcpv4.OptionRelayAgentInformation)] = rai
 	}
-	if r.Intn(2) == 0 {
+	if r.Intn(2) == 0 || big {
 		cid := make([]byte, 1+r.Intn(8))
+		if big {
+			cid = make([]byte, 180+r.Intn(76))
+		}
 		r.Read(cid)
 		d.Options[uint8(dhcpv4.OptionClientIdentifier)] = cid
+	}
+	if r.Intn(3) == 0 {
+		sz := []uint16{576, 577, 590, 600, 1500, 0, 100, 65535}[r.Intn(8)]
+		d.Options[uint8(dhcpv4.OptionMaximumDHCPMessageSize)] = []byte{byte(sz >> 8), byte(sz)}
 	}
 	if r.Intn(2) == 0 {
 		d.Options[uint8(dhcpv4.OptionParameterRequestList)] = []byte{1, 3, 6, 15}
@@ -321,7 +334,7 @@ func feed4on(t *Trace, ll *live4, in in4, r *rand.Rand, evname string) {
 	e := Ev{"ev": evname, "in": in.ev(), "parsed": perr == nil, "panic": pan != nil}
 	out := Ev{"sent": false, "n": 0, "type": -1, "opcode": -1, "eqxid": false, "eqhtype": false, "eqchaddr": false, "eqflags": false,
 		"eqgiaddr": false, "eqrai": false, "eqcid": false, "pgi": false, "pbc": false, "pci": false, "pyi": false, "port": 0, "ifindex": 0,
-		"woob": false, "l2": false, "frame": false, "fdmac": false, "fdip": false, "fsport": 0, "fdport": 0, "fif": 0, "fsmac": false, "fwire": false, "fpay": false, "fexpected": false, "size": 0}
+		"woob": false, "l2": false, "frame": false, "fdmac": false, "fdip": false, "fsport": 0, "fdport": 0, "fif": 0, "fsmac": false, "fwire": false, "fpay": false, "fecho": false, "fexpected": false, "size": 0}
 	capt.mu.Lock()
 	sent := append([]server.VerifSent4(nil), capt.s4...)
 	frames := capt.frames
@@ -378,6 +391,12 @@ func feed4on(t *Trace, ll *live4, in in4, r *rand.Rand, evname string) {
 					out["fpay"] = pay.TransactionID == s.Resp.TransactionID && pay.YourIPAddr.Equal(s.Resp.YourIPAddr) && pay.MessageType() == s.Resp.MessageType() &&
 						bytes.Equal(pay.ClientHWAddr, s.Resp.ClientHWAddr) && bytes.Equal(pay.Options.Get(dhcpv4.OptionServerIdentifier), s.Resp.Options.Get(dhcpv4.OptionServerIdentifier)) &&
 						bytes.Equal(pay.Options.Get(dhcpv4.OptionIPAddressLeaseTime), s.Resp.Options.Get(dhcpv4.OptionIPAddressLeaseTime))
+				}
+				// what really leaves on the link-level path is the frame: ITS payload carries the request's fields and echoes
+				if pay, err := dhcpv4.FromBytes(udp.Payload); err == nil {
+					out["fecho"] = pay.OpCode == dhcpv4.OpcodeBootReply && pay.TransactionID == req.TransactionID && pay.HWType == req.HWType &&
+						bytes.Equal(pay.ClientHWAddr, req.ClientHWAddr) && pay.Flags == req.Flags && pay.GatewayIPAddr.Equal(req.GatewayIPAddr) &&
+						eqOpt4(pay, req, dhcpv4.OptionRelayAgentInformation) && eqOpt4(pay, req, dhcpv4.OptionClientIdentifier)
 				}
 				if len(fifs) == 1 {
 					// the interface the frame leaves on, and the source address it carries: that interface's own
@@ -471,6 +490,21 @@ func runD4(t *Trace, seed int64, full bool, shard, shards int) {
 			}
 			feed4on(t, ll, in4{parse: true, op: 1, mt: 1 + 2*(i%2), gi: []string{"zero", "routable"}[i%2], ci: "zero", bflag: i%3 == 0, final: final, yi: true, bound: 0, oobif: 7, hlen: 6}, r, "d4")
 		}
+	}
+	// the link-level reply path for real: on an interface with a hardware address the reply runs through sendEthernet up to the
+	// frame hook, and what the frame carries is what the client gets - every hardware address length and type, long options
+	if ifs := macInterfaces(); shard == 0 && len(ifs) >= 1 {
+		capt.l2real = true
+		ll := newLive4(ifs[0].Index)
+		n := 0
+		for i := 0; i < 170; i++ {
+			r := rand.New(rand.NewSource(seed*5003 + int64(i)))
+			feed4on(t, ll, in4{parse: true, op: 1, mt: 1 + 2*(i%2), gi: "zero", ci: "zero", bflag: false, final: "base", yi: i%5 != 4, bound: ifs[0].Index, oobif: 0,
+				hlen: []int{6, 7, 8, 6, 16, 15, 6, 1, 0, 6, 12}[i%11]}, r, "d4")
+			n++
+		}
+		capt.l2real = false
+		t.Emit(Ev{"ev": "note", "what": "c11_l2_frames", "value": n})
 	}
 	// (1) C11 product: opcode x message type x parse x giaddr set/unset x chain result
 	ops := make([]int, 0, 256)
@@ -659,6 +693,11 @@ func datagram6(in in6, r *rand.Rand) ([]byte, []layer6) {
 	if r.Intn(3) == 0 {
 		m.AddOption(&dhcpv6.OptIANA{IaId: [4]byte{1, 2, 3, byte(r.Intn(256))}})
 	}
+	if in.cid && r.Intn(5) == 0 {
+		// a second, different Client Identifier option further down: the message's client identifier is the one the codec
+		// (and with it every plugin) reads, the first
+		m.AddOption(dhcpv6.OptClientID(&dhcpv6.DUIDOpaque{Type: dhcpv6.DUIDType(9), Data: []byte{0xde, 0xad, byte(r.Intn(256))}}))
+	}
 	var outer dhcpv6.DHCPv6 = m
 	var ls []layer6
 	for i := 0; i < in.depth; i++ {
@@ -677,6 +716,15 @@ func datagram6(in in6, r *rand.Rand) ([]byte, []layer6) {
 		if r.Intn(4) == 0 {
 			// RFC 8357 Relay Source Port (the port of the DOWNSTREAM relay): the reply still goes back to where the datagram came from
 			rm.AddOption(&dhcpv6.OptionGeneric{OptionCode: 135, OptionData: []byte{byte(r.Intn(2) * 4), byte(r.Intn(2) * 0xd2)}})
+		}
+		if r.Intn(5) == 0 {
+			// RFC 4994 Relay Agent Echo Request: a list of option codes the relay would like back (any codes, also those of the
+			// options a Relay-Reply is made of); whatever a server does with it, the layer encloses the server's answer
+			codes := [][]byte{{0, 9}, {0, 18, 0, 9}, {0, 37, 0, 38}, {0, 9, 0, 18, 0, 37}, {0, 43}}[r.Intn(5)]
+			rm.AddOption(&dhcpv6.OptionGeneric{OptionCode: 43, OptionData: codes})
+			if r.Intn(2) == 0 {
+				rm.AddOption(&dhcpv6.OptionGeneric{OptionCode: 38, OptionData: []byte("subscriber")})
+			}
 		}
 		rm.AddOption(dhcpv6.OptRelayMessage(outer))
 		outer = rm
@@ -939,17 +987,30 @@ func synHandler4(beh string, idx int) handler.Handler4 {
 		switch beh {
 		case "pass":
 			return resp, false
+		case "nilpass":
+			return nil, false
 		case "modify":
-			mark(resp)
+			if resp != nil {
+				mark(resp)
+			}
 			return resp, false
 		case "replace":
 			n, _ := dhcpv4.NewReplyFromRequest(req)
-			n.UpdateOption(dhcpv4.OptMessageType(resp.MessageType()))
+			mt := dhcpv4.MessageTypeOffer
+			if req.MessageType() == dhcpv4.MessageTypeRequest {
+				mt = dhcpv4.MessageTypeAck
+			}
+			if resp != nil {
+				mt = resp.MessageType()
+			}
+			n.UpdateOption(dhcpv4.OptMessageType(mt))
 			n.YourIPAddr = net.IPv4(192, 0, 2, byte(idx)).To4()
 			n.UpdateOption(dhcpv4.OptGeneric(dhcpv4.GenericOptionCode(optID4), []byte{byte(idx)}))
 			return n, false
 		case "stop":
-			mark(resp)
+			if resp != nil {
+				mark(resp)
+			}
 			return resp, true
 		case "stopnil":
 			return nil, true
@@ -981,8 +1042,12 @@ func synHandler6(beh string, idx int) handler.Handler6 {
 		switch beh {
 		case "pass":
 			return resp, false
+		case "nilpass":
+			return nil, false
 		case "modify":
-			mark(resp)
+			if resp != nil {
+				mark(resp)
+			}
 			return resp, false
 		case "replace":
 			inner, _ := req.GetInnerMessage()
@@ -993,7 +1058,9 @@ func synHandler6(beh string, idx int) handler.Handler6 {
 			n.UpdateOption(&dhcpv6.OptionGeneric{OptionCode: dhcpv6.OptionCode(optID6), OptionData: []byte{byte(idx)}})
 			return n, false
 		case "stop":
-			mark(resp)
+			if resp != nil {
+				mark(resp)
+			}
 			return resp, true
 		case "stopnil":
 			return nil, true
@@ -1047,7 +1114,9 @@ func registerSyn() {
 	})
 }
 
-var synBehaviours = []string{"pass", "modify", "replace", "stop", "stopnil"}
+// the five behaviours of the property, and a sixth the statement also settles: a handler that returns nil WITHOUT signalling
+// stop (only the stop flag ends the chain; the next handler is handed nil)
+var synBehaviours = []string{"pass", "modify", "replace", "stop", "stopnil", "nilpass"}
 
 func runChains(t *Trace, seed int64, maxLen int) error {
 	registerSyn()
